@@ -258,7 +258,7 @@ def exotic_names(rng, x, p=0.25):
                     m[n] = ch
     for n in names:
         if n not in m and n != a and rng.random() < 0.3:
-            m[n] = rng.choice(["{} ", " {}", "{}.", ".{}", "{}\u00e9", "{}.{}"]).format(n, n) if True else n
+            m[n] = rng.choice(["{} ", " {}", "{}.", ".{}", "{}\u00e9", "{}.{}", "{}{{0}}", "{{}}{}", "{}{{", "}}{}", "{}%s", "#{}"]).format(n, n)
     if len(set(m.values()) | (set(names) - set(m))) != len(names):
         return x
     f = lambda n: m.get(n, n)
@@ -279,7 +279,7 @@ def wild_graph(rng, max_nodes=10):
         r = rng.random()
         sh = [rng.choice([2, 3])] if rng.random() < 0.6 else [rng.choice([1, 2]), rng.choice([4, 5, 6]), rng.choice([4, 5])]
         if r < 0.2:
-            nodes[f"i{i}"] = {"k": "Input", "args": {"input_type": np.array(sh, dtype=np.int64)}}
+            nodes[f"i{i}"] = {"k": "Input", "args": {"input_type": np.array(sh, dtype=np.int64) if rng.random() > 0.12 else None}}
         elif r < 0.35:
             nodes[f"o{i}"] = {"k": "Output", "args": {"output_type": None if rng.random() < 0.5 else np.array(sh, dtype=np.int64)}}
         elif r < 0.55:
